@@ -22,7 +22,9 @@ def run(ctx):
     driver.run_cases(
         ctx, 'print-parse', 'vf.rtc.lang_rtc', 'check_roundtrip_case', cases, chunk=1,
         rule='formulas of PL, LTL, CTL* (native print) and CTL (printed in CTL* notation via cast_to, and natively) over identifier atoms '
-             'p,q,x_1 with and/or of arity 2-3: enumeration to depth %d (sampled above the cap), seeded random to depth 5; '
+             'p,q,x_1 with and/or of arity 2-3: enumeration to depth %d (sampled above the cap), seeded random to depth 5; p renamed to each of '
+             '43 identifiers that begin like an operator or reserved word (Fail, Grant, Xfer_1, Up, AGx, nota, or_, True, ...) in every '
+             'formula of <= 3 nodes and 24 sampled others; '
              'comparison is structural (class names, atom names, child order); distinct by (logic, tree)' % (3 if thorough else 2))
     driver.run_cases(ctx, 'print-injective', 'vf.rtc.lang_rtc', 'check_injective_case', inj, chunk=1,
                      rule='pairwise distinctness of printed forms over each pool')
